@@ -653,6 +653,9 @@ func (x *Exec) convNum(s, fs, ts string, fsigned, tsigned bool) string {
 		}
 		return fmt.Sprintf("(nat%d %s)", fn, s)
 	case fs == "Int" && tbv:
+		if lit, ok := isLit(s); ok && lit >= 0 {
+			return bvConst(big.NewInt(lit), tn)
+		}
 		x.sc.bridge[tn] = true
 		return fmt.Sprintf("(bvof%d %s)", tn, s)
 	case fs == "Int" && ts == "Int":
